@@ -20,25 +20,31 @@ PROPS = {
                         "assumed: byte model of &str (utf8() uninterpreted, chars = non-continuation bytes), regex matches are in-bounds/ordered/non-overlapping and on char boundaries"],
     },
     "C17": {
-        "units": ["value64", "opeval"],
+        "units": ["value64", "opeval", "bigeval"],
         "level": "proof",
         "clause": "For every operator (for ** only the negative-exponent rule of Table 11-4), every operand value (2- and 4-state), every operand width 0..64 (0 = unsized all-bit literal), every context width 1..64 and "
                   "both signednesses, Op::eval_value_unary/eval_value_binary return the IEEE 1800 value (reference model units/opeval/harness.rs), stay in the <=64-bit "
                   "representation and keep the representation invariant; Value::{expand,trunc,select,concat,assign,set_value} and the ValueU64 primitives meet their bit-level "
-                  "contracts (Kani/CBMC, loop-free harnesses over fully symbolic inputs = complete).",
-        "assumptions": ["not covered: Op::Pow with a non-negative exponent (BigUint::modpow), widths above 64 bits (BigUint arms), agreement of the two representations, literal parsing establishing the representation invariant",
+                  "contracts (Kani/CBMC, loop-free harnesses over fully symbolic inputs = complete). "
+                  "Widths above 64 bits (unit bigeval, Verus, unbounded in the width): every big-integer arm of eval_value_binary / eval_value_unary except ** and `as`, "
+                  "Value::expand on all four paths, gen_mask, to_bigint, new_bigint are proved against the same IEEE definitions restated over natural numbers, assuming "
+                  "mathematical contracts for the num-bigint operations; lemma_ext_bits / lemma_agree_* tie the two restatements together (same per-bit tables, same sval/tdiv/trem).",
+        "assumptions": ["not covered: Op::Pow with a non-negative exponent (BigUint::modpow), Value::trunc/select/concat above 64 bits, literal parsing establishing the representation invariant; "
+                        "agreement of the two representations is by both being proved against one definition, there is no single cross-unit theorem",
+                        "bigeval: num-bigint / num-traits operations carry assumed mathematical contracts (listed in trusted_base); match arms are extracted mechanically (rule EA) and the "
+                        "<=64-bit sub-arm is proved unreachable (rule EB); overloaded operators are rewritten to trait-method calls (rule ED) because this Verus aborts on them",
                         "assumed: Value.signed flags of operands agree with the type-level signedness passed as `signed` (signed ==> operands signed)",
                         "machine 64-bit multiply/divide/remainder are uninterpreted in the complete proofs (rule E10) and cross-checked only at context width <= 8 (bounded stand-ins)"],
     },
     "C18": {
-        "units": ["wide", "opeval"],
+        "units": ["wide", "opeval", "bigeval"],
         "level": "proof",
         "clause": "Multi-word run-time helpers (crates/simulator/src/wide_ops.rs, used by the JIT and C engines above 128 bits): all 24 wide_* helpers plus nw, sext_word, "
                   "pack/unpack_nb_width compute the mathematically correct multi-word result (add/sub/negate/mul modulo 2^(64n), signed/unsigned compare, shifts by any amount, "
                   "sign/zero extension, masks, reductions) for every word count and every value, with every memory access in bounds (Verus, unbounded). "
                   "Interpreter engine, widths <= 64: Expression::eval (crates/simulator/src/ir/expression.rs) evaluates Unary/Binary nodes by calling exactly Op::eval_value_unary / "
-                  "Op::eval_value_binary, which are proved equal to the IEEE 1800 reference for all values and widths <= 64 (same contract as C17), so run-time == compile-time there.",
-        "assumptions": ["not covered: the Cranelift and AOT-C code that calls the helpers and all <=128-bit machine-code lowering, the interpreter's BigUint arms (65+ bits), "
+                  "Op::eval_value_binary, which are proved equal to the IEEE 1800 reference for all values at widths <= 64 (Kani) and above 64 (unit bigeval, Verus, assumed num-bigint contracts) - the same contracts as C17, so run-time == compile-time there.",
+        "assumptions": ["not covered: the Cranelift and AOT-C code that calls the helpers and all <=128-bit machine-code lowering, Op::Pow, "
                         "that Expression::eval passes the same (width, signed) as the analyzer",
                         "wide_ops: raw pointers re-typed to Vec<u64> (rule E5): pointer validity, alignment and aliasing of dst with an operand are not modelled"],
     },
